@@ -493,7 +493,7 @@ pub enum Opt {
 }
 
 /// minimise c.x over the closed set
-pub fn minimize(rows: &[Row], n: usize, c: &[Q]) -> Opt {
+pub fn minimize(rows: &[Row], _n: usize, c: &[Q]) -> Opt {
     let rs = match prefilter(rows) {
         Some(r) => r,
         None => return Opt::Empty,
